@@ -94,7 +94,7 @@ def generate(rng, i, tier):
             tagc += 1
             ms = gen_members(rng, f"t{tagc}")
             pool[g].append(ms)
-            opsl.append({"op": "add", "group": g, "members": ms})
+            opsl.append({"op": "add", "group": g, "members": ms, "via": rng.choice(["list", "list", "list", "file"])})
         elif k == "readd":
             ms = rng.choice(pool[g][-2:])
             opsl.append({"op": "add", "group": g, "members": ms})
@@ -109,6 +109,10 @@ def reductions(sc):
     for cand in drop_each(sc["ops"], 1):
         yield with_(sc, ops=cand)
     for j, op in enumerate(sc["ops"]):
+        if op["op"] == "add" and op.get("via") == "file":
+            c = with_(sc)
+            c["ops"][j]["via"] = "list"
+            yield c
         if op["op"] == "add" and len(op["members"]) > 1:
             for cand in drop_each(op["members"], 1):
                 c = with_(sc)
@@ -220,8 +224,18 @@ def execute(sc):
             if k == "add":
                 g = op["group"]
                 texts = [m["text"] for m in op["members"]]
-                with ops.quiet():
-                    cs.paths_manager.add_named_paths(name=g, paths=texts)
+                if op.get("via") == "file":
+                    # the same members delivered as a .csvpaths file (members separated by the marker line)
+                    fp = os.path.join("src", f"{g}-{step}.csvpaths")
+                    with open(fp, "w", encoding="utf-8") as f:
+                        f.write("\n---- CSVPATH ----\n".join(texts))
+                    with ops.quiet():
+                        cs.paths_manager.add_named_paths(name=g, from_file=fp)
+                    texts = [t.strip() for t in texts]
+                    out.probe("group added from a file")
+                else:
+                    with ops.quiet():
+                        cs.paths_manager.add_named_paths(name=g, paths=texts)
                 stored = _stored_text(texts)
                 if g not in model:
                     model[g] = {"members": op["members"], "versions": 1, "stored": stored}
@@ -258,6 +272,7 @@ def execute(sc):
                 break
         out.probe("identical re-add", False)
         out.probe("replace", False)
+        out.probe("group added from a file", False)
         out.states.append(json.dumps(sorted((g, st["versions"], [m["ident"] for m in st["members"]]) for g, st in model.items())))
         out.runs = len(sc["ops"])
         out.log("tree", W.tree_digest(("inputs",)))
